@@ -855,3 +855,7 @@ def run(chk: Check) -> None:
     keyword_coupling_rule(chk, "C17-D9", (SET, MERGE, ROTATE), 5)
     from rules.c19 import d9_whole_file_writes_truncate
     d9_whole_file_writes_truncate(chk, "C17-D10", (SET, MERGE, ROTATE))
+    from rules.shared import no_jump_out_of_finally_rule
+    no_jump_out_of_finally_rule(
+        chk, "C17-D11", (SET, MERGE, ROTATE,
+                         "yamlpath/wrappers/consoleprinter.py"), 40)
